@@ -45,7 +45,7 @@ def timers_before_after(w, F, step):
 
 def unsolicited(e):
     d = e.d["desc"]
-    return d[0] in ("PUBACK", "PUBREC", "PUBCOMP", "SUBACK", "UNSUBACK") and d[-1] in (3, 4, 5, 6)
+    return d[0] in ("PUBACK", "PUBREC", "PUBCOMP", "SUBACK", "UNSUBACK") and d[-1] in (3, 4, 5, 6, 7)
 
 
 # ====================================================================== C05
@@ -484,8 +484,9 @@ def mon_c18(w, F, vd):
                 conn.idx, len(conn.residue)))
         if kinds and kinds[0] != "CONNECT" and kinds[0] != "MALFORMED":
             vd.bad("C18.first_not_connect", "connection %d starts with %s" % (conn.idx, kinds[0]))
-        if kinds.count("CONNECT") > 1:
-            vd.bad("C18.second_connect", "connection %d carries %d CONNECT packets" % (conn.idx, kinds.count("CONNECT")))
+        n_connect = len([fr for fr in conn.frames if fr[1] == "CONNECT" and fr[4] in ("wire", "dropped")])
+        if n_connect > 1:
+            vd.bad("C18.second_connect", "connection %d: %d CONNECT packets written" % (conn.idx, n_connect))
         disc_ei = None
         for (ei, kind, f, raw, where) in frames:
             ctx = w.log[ei].ctx
@@ -851,7 +852,11 @@ def mon_c04(w, F, vd):
         limit = t0 + (kw["keepalive"] or 10)
         first_connack = None
         lost_ev = None
-        for e in w.log[api.i:]:
+        # this handshake ends where the next accepted connect() on the same protocol begins
+        nxt = [x.i for x in w.log[api.i + 1:] if x.k == "api" and x.d["op"] == "connect" and x.c == conn.idx
+               and getattr(w.reqs[x.d["rid"]], "fresh", False) and w.reqs[x.d["rid"]].ret == "deferred"]
+        hs_end = nxt[0] if nxt else len(w.log)
+        for e in w.log[api.i:hs_end]:
             if e.c != conn.idx:
                 continue
             if e.k == "rx" and e.d["desc"][0] == "CONNACK" and first_connack is None:
@@ -902,11 +907,11 @@ def mon_c04(w, F, vd):
                 vd.bad("C04.outcome_context", "connect Deferred fired %s in context %r" % (f[3], ctx[:3] if ctx else None))
         else:
             # never fired: only acceptable if the history ended before the deadline
-            if end_t > limit + EPS:
+            if end_t > limit + EPS and hs_end == len(w.log):
                 vd.bad("C04.never_fired", "connect Deferred still pending %.1fs after connect() (limit %s)" % (end_t - t0, kw["keepalive"] or 10))
         # duplicate CONNACKs change nothing
         seen = 0
-        for e in w.log[api.i:]:
+        for e in w.log[api.i:hs_end]:
             if e.c == conn.idx and e.k == "rx" and e.d["desc"][0] == "CONNACK":
                 seen += 1
                 if seen >= 2:
@@ -935,6 +940,20 @@ def mon_c04(w, F, vd):
             continue
         nontriv = nontriv or e.d["phase"] != "connected"
         conn = w.conns[e.c]
+        # pending requests are failed or preserved as the session mode of this connection demands
+        evs_loss = _ctx_events(w, e)
+        if conn.clean is False:
+            for x in evs_loss:
+                if x.k == "fire" and x.d["kind"] == "publish":
+                    vd.bad("C04.session_mode_at_loss", "publish #%d fired %s(%s) when a connection opened with cleanStart=False was lost (%s)" % (
+                        x.d["rid"], x.d["out"], x.d["val"], e.d["phase"]))
+        elif conn.clean is True:
+            failed = set(x.d["rid"] for x in evs_loss if x.k == "fire" and x.d["out"] == "err")
+            for ri in F.info.values():
+                if ri.conn is conn and ri.accepted and not (ri.kind == "publish" and ri.qos == 0) \
+                        and (ri.fire is None or ri.fire[0] > e.i) and ri.rid not in failed:
+                    vd.bad("C04.session_mode_at_loss", "%s #%d still pending after a connection opened with cleanStart=True was lost (%s)" % (
+                        ri.kind, ri.rid, e.d["phase"]))
         st = dict(F.step_end[e.step].d["states"]).get(e.c) if e.step in F.step_end else None
         if st is not None and st != "idle":
             vd.bad("C04.not_idle_after_loss", "protocol.state is %s after the connection was lost" % st)
@@ -1840,6 +1859,14 @@ def mon_c16(w, F, vd):
     for e in F.rx:
         if e.d["desc"][0] != "RAW" and unsolicited(e):
             nontriv = True
+    # whatever arrives from one broker can never complete a request made to another
+    for e in F.rx:
+        a = w.conns[e.c].a
+        for x in _ctx_events(w, e):
+            if x.k == "fire" and x.d["out"] == "ok" and x.d["kind"] in ("publish", "subscribe", "unsubscribe") \
+                    and x.d["rid"] in F.info and F.info[x.d["rid"]].a != a:
+                vd.bad("C16.unjustified_success", "data from broker %d completed %s #%d, which was made to broker %d" % (
+                    a, x.d["kind"], x.d["rid"], F.info[x.d["rid"]].a))
     # afterwards everything pending is settled by the ordinary loss handling (clean sessions)
     for e in w.log:
         if e.k != "lost":
